@@ -88,7 +88,7 @@ def _run_one(args) -> Dict[str, Any]:
     env["PYTHONPATH"] = f"{workdir}:{common.VERIF}"
     env["PYTHONHASHSEED"] = "0"
     env["VERIF_UNDER_CROSSHAIR"] = "1"
-    cmd = ["timeout", "-k", "5", str(int(timeout + 60)), CROSSHAIR, "check", "--report_all",
+    cmd = ["timeout", "-k", "5", str(int(4 * timeout + 120)), CROSSHAIR, "check", "--report_all",
            "--per_condition_timeout", str(timeout), "--per_path_timeout", str(path_timeout), f"{module}.{func}"]
     t = time.time()
     p = subprocess.run(cmd, cwd=workdir, env=env, stdout=subprocess.PIPE, stderr=subprocess.PIPE, text=True)
